@@ -42,7 +42,7 @@ reasons = {
     "reserve-ignores-vrf": "registry Reserve*/override API carries no VRF; needs an API change across ipoe/pppoe/ha callers",
     "restore-keeps-conflicting-address": "cannot fire on HEAD without another defect first; dropping the address would let a stale image win over the legitimate holder",
     "coa-without-event-timestamp-bypasses-window": "requiring Event-Timestamp breaks DACs that omit it (plain radclient); a compatibility decision for the maintainers (patch kept in fixes/C08_require_event_timestamp.patch)",
-    "bulk-sync-lagging-standby-not-converging": "needs a 'replace all' meaning for snapshot pages (replication proto change) and a client that does not exist yet (BulkSync / ClearSyncedNamespace have no caller in /repo)",
+    "bulk-sync-lagging-standby-not-converging": "a repair without proto change exists (fixes/C11_bulk_complete_set.patch, 141 lines, validated against the repaired model): it redefines a bulk sync as the complete set of an SRG's live sessions and makes the receiver drop what it was not sent. That changes the contract of an RPC whose client does not exist yet in /repo (BulkSync / ClearSyncedNamespace have no caller) — a design decision for the maintainers, not a small safe patch; kept as a proposal",
     "stale-heartbeat-built-before-peer-loss": "telling a heartbeat built before the receiver's peer-loss detection from a fresh one needs a common clock or an epoch handshake in the heartbeat proto; not a small change",
     "pools-overlap-within-vrf-accepted": "a configuration-validation decision (reject overlapping subscriber pools of one family per VRF at commit); touches config validation for every pool source and may reject configurations operators run today",
     "start-stop-interim-sent-from-unordered-goroutines": "needs a per-session ordered send queue covering Start, every Interim and the Stop; not a small change",
